@@ -272,7 +272,7 @@ func init() {
 }
 
 func c15JudgePos(c *mon.Ctx, in *c15Pos) {
-	c.Eval(1)
+	c.Eval(2) // one evaluation per network
 	h := []byte(in.Hash)
 	var key []byte
 	var pub *bec.PublicKey
